@@ -365,7 +365,7 @@ func fileReadAux(L *LState, file *lFile, idx int) int {
 				switch opt {
 				case 'n':
 					var v LNumber
-					_, err = fmt.Fscanf(file.reader, LNumberScanFormat, &v)
+					_, err = fmt.Fscan(file.reader, &v)
 					if err == io.EOF {
 						L.Push(LNil)
 						goto normalreturn
